@@ -10,6 +10,9 @@ pub fn gen(r: &mut Rng) -> Value {
     let scripts = [
         "out = set 1", "exit 0", "exit 1", "exit 3", "exit 255", "exit 256", "exit 512", "exit -256", "exit abc", "exit", "nosuchcommand",
         "x = set \"unterminated", "echo hi\nexit 65536", "assert false", ":L out = set 1", "Out = set 1", "out = Set 1", ":Lbl x = set 1", "if true\nend",
+        // text the tool must hand to the library untouched: escapes, quotes, references, comment signs
+        "out = set \"line1\\nline2\"", "out = array a\\nexit 7", "x = set a\\tb\\\\c", "x = set ${y}\nexit 2", "x = set \"# not a comment\"\nexit 0", "x = set 1 # exit 3",
+        "x = set \\${y}", "  exit 4  ", "\nexit 5\n", "exit 6\r\n", "x = set %{y}\nassert ${x}",
     ];
     if r.chance(1, 3) {
         // lint: a few lines of every shape (label / output / command alone or combined, either case)
